@@ -111,12 +111,15 @@ pub enum Op {
     DeleteCert,
     DeleteKey,
     Reload,
+    /// certificate file and key file of one material written together
+    WritePair(usize),
 }
 
 fn op_str(o: &Op, mats: &[Material]) -> String {
     match o {
         Op::WriteCert(i) => format!("write-cert({})", mats[*i].name),
         Op::WriteKey(i) => format!("write-key({})", mats[*i].name),
+        Op::WritePair(i) => format!("write-cert+key({})", mats[*i].name),
         Op::TruncCert(p) => format!("truncate-cert({}‰)", p),
         Op::TruncKey(p) => format!("truncate-key({}‰)", p),
         Op::GarbageCert => "garbage-cert".into(),
@@ -153,14 +156,62 @@ struct State {
 /// which material does the file content denote (complete PEM of X), if any?
 fn denotes(content: &[u8], mats: &[Material], key: bool) -> Option<usize> {
     let text = String::from_utf8_lossy(content);
+    // the complete file of a material
     for (i, m) in mats.iter().enumerate() {
         let pem = if key { &m.key_pem } else { &m.cert_pem };
-        let core = pem.trim_end();
-        if text.trim_start().starts_with(core) {
+        if text.trim() == pem.trim() {
+            return Some(i);
+        }
+    }
+    if key {
+        for (i, m) in mats.iter().enumerate() {
+            if text.trim_start().starts_with(m.key_pem.trim_end()) {
+                return Some(i);
+            }
+        }
+        return None;
+    }
+    // a certificate file whose first complete block is the leaf of a material (what follows — a truncated or complete
+    // further block — does not change which certificate the file presents)
+    const END: &str = "-----END CERTIFICATE-----";
+    let first_block = |t: &str| -> Option<String> { t.find(END).map(|p| t[..p + END.len()].trim().to_string()) };
+    let fb = first_block(&text)?;
+    for (i, m) in mats.iter().enumerate() {
+        let Some(mb) = first_block(&m.cert_pem) else { continue };
+        // only materials whose first block IS their leaf
+        let leaf_first = pem_block_der(&mb).map(|d| d == m.der).unwrap_or(false);
+        if leaf_first && mb == fb {
             return Some(i);
         }
     }
     None
+}
+
+fn pem_block_der(block: &str) -> Option<Vec<u8>> {
+    let b64: String = block.lines().filter(|l| !l.starts_with("-----")).collect::<Vec<_>>().join("");
+    // minimal base64 decoder (standard alphabet, padding)
+    let mut out = vec![];
+    let mut acc = 0u32;
+    let mut bits = 0u32;
+    for c in b64.bytes() {
+        let v = match c {
+            b'A'..=b'Z' => c - b'A',
+            b'a'..=b'z' => c - b'a' + 26,
+            b'0'..=b'9' => c - b'0' + 52,
+            b'+' => 62,
+            b'/' => 63,
+            b'=' => break,
+            _ => continue,
+        } as u32;
+        acc = (acc << 6) | v;
+        bits += 6;
+        if bits >= 8 {
+            bits -= 8;
+            out.push((acc >> bits) as u8);
+            acc &= (1 << bits) - 1;
+        }
+    }
+    Some(out)
 }
 
 #[derive(Clone, Debug, PartialEq)]
@@ -180,6 +231,10 @@ fn apply_disk(op: &Op, st: &State, mats: &[Material]) {
     match op {
         Op::WriteCert(i) => std::fs::write(&st.cert, &mats[*i].cert_pem).unwrap(),
         Op::WriteKey(i) => std::fs::write(&st.key, &mats[*i].key_pem).unwrap(),
+        Op::WritePair(i) => {
+            std::fs::write(&st.cert, &mats[*i].cert_pem).unwrap();
+            std::fs::write(&st.key, &mats[*i].key_pem).unwrap();
+        }
         Op::TruncCert(p) | Op::TruncKey(p) => {
             let path = if matches!(op, Op::TruncCert(_)) { &st.cert } else { &st.key };
             if let Ok(c) = std::fs::read(path) {
@@ -441,7 +496,7 @@ pub fn run(tier: Tier) -> i32 {
     let mut rep = Report::new("C18", tier, "fault_enumeration");
     let thorough = tier.is_thorough();
     rep.assumptions = vec![
-        "real files in a scratch directory, rcgen-made pairs A (initial), B, C, D (expired 400 days ago), A2 (A's key and serial, new validity) and B2 (new key under B's serial); reload() is called directly (the file watcher only decides when it is called)".into(),
+        "real files in a scratch directory, rcgen-made pairs A (initial), B, C, D (expired 400 days ago), A2 (A's key and serial, new validity), B2 (new key under B's serial), and CA-issued leaves in chain files (leaf first, CA first, expired leaf behind a valid CA); reload() is called directly (the file watcher only decides when it is called)".into(),
         "which certificates count as expired is not fixed by the property (day granularity is an observation, not a violation); D is far beyond any granularity".into(),
         "mid-reload disk changes are injected through the H10 synchronous points between the reload's file reads".into(),
     ];
@@ -453,10 +508,39 @@ pub fn run(tier: Tier) -> i32 {
     let a2 = make_material_with("A2-renewed-same-key-and-serial", 0xA1, -1, 500, Some(&mats[0]));
     mats.push(a2);
     mats.push(make_material("B2-rekeyed-same-serial", 0xB2, -1, 365));
+    // certificate files that hold a chain: leaf first (the usual bundle), the CA first (a mis-ordered bundle: the
+    // first block is what gets reported and, for rustls, what must match the key), and an expired leaf behind a valid CA
+    let (ca_pem, ca_params, ca_key) = {
+        let mut p = rcgen::CertificateParams::new(vec![]).expect("params");
+        p.is_ca = rcgen::IsCa::Ca(rcgen::BasicConstraints::Unconstrained);
+        p.distinguished_name.push(rcgen::DnType::CommonName, "harness CA");
+        p.serial_number = Some(rcgen::SerialNumber::from(0xCA00u64));
+        let now = time::OffsetDateTime::now_utc();
+        p.not_before = now - time::Duration::days(1);
+        p.not_after = now + time::Duration::days(3650);
+        let k = rcgen::KeyPair::generate().expect("key");
+        let c = p.self_signed(&k).expect("ca");
+        (c.pem(), p, k)
+    };
+    let issued = |name: &'static str, serial: u64, not_after_days: i64, ca_first: bool| -> Material {
+        let mut p = rcgen::CertificateParams::new(vec!["localhost".to_string()]).expect("params");
+        let now = time::OffsetDateTime::now_utc();
+        p.not_before = now - time::Duration::days(if not_after_days < 0 { 800 } else { 1 });
+        p.not_after = now + time::Duration::days(not_after_days);
+        p.serial_number = Some(rcgen::SerialNumber::from(serial));
+        let key = rcgen::KeyPair::generate().expect("key");
+        let issuer = rcgen::Issuer::from_params(&ca_params, &ca_key);
+        let cert = p.signed_by(&key, &issuer).expect("leaf");
+        let file = if ca_first { format!("{}{}", ca_pem, cert.pem()) } else { format!("{}{}", cert.pem(), ca_pem) };
+        Material { name, cert_pem: file, key_pem: key.serialize_pem(), der: cert.der().to_vec(), serial_hex: format!("{:x}", serial), expired: not_after_days < 0 }
+    };
+    mats.push(issued("L1-chain-leaf-first", 0xE1, 365, false));
+    mats.push(issued("L2-chain-CA-first", 0xE2, 365, true));
+    mats.push(issued("L3-expired-leaf-behind-valid-CA", 0xE3, -400, true));
     let base = PathBuf::from(format!("{}/scratch/c18-{}", verif_dir(), std::process::id()));
     let _ = std::fs::create_dir_all(&base);
     // ---- alphabet and histories
-    let disk_ops = vec![Op::WriteCert(1), Op::WriteKey(1), Op::WriteCert(2), Op::WriteKey(2), Op::WriteCert(3), Op::WriteKey(3), Op::WriteCert(4), Op::WriteKey(0), Op::WriteCert(5), Op::WriteKey(5), Op::TruncCert(500), Op::TruncKey(500), Op::GarbageCert, Op::GarbageKey, Op::DeleteCert, Op::DeleteKey];
+    let disk_ops = vec![Op::WriteCert(1), Op::WriteKey(1), Op::WriteCert(2), Op::WriteKey(2), Op::WriteCert(3), Op::WriteKey(3), Op::WriteCert(4), Op::WriteKey(0), Op::WriteCert(5), Op::WriteKey(5), Op::WritePair(6), Op::WritePair(7), Op::WritePair(8), Op::TruncCert(500), Op::TruncKey(500), Op::GarbageCert, Op::GarbageKey, Op::DeleteCert, Op::DeleteKey];
     let mut alphabet = disk_ops.clone();
     alphabet.push(Op::Reload);
     let depth = if thorough { 4 } else { 3 };
